@@ -25,6 +25,22 @@ def handler(kind):
 @handler("bisection")
 def h_bisection(rec):
     m, rp = rec["model"] or {}, rec["replay"]
+    if rp["fn"] == "AutoregressiveBisectionInverter.__check_init__":
+        from flowjax.bisection_search import AutoregressiveBisectionInverter as Inv
+
+        cands = []
+        try:
+            cands.append((rt.fnum(m["lower"]), rt.fnum(m["upper"]), rt.fnum(m["tol"]), int(m["max_iter"])))
+        except Exception:  # noqa: BLE001
+            pass
+        cands += [(-1.0, 1.0, 1e-7, 0), (-1.0, 1.0, 1e-7, 1), (0.0, 1e-9, 1e-12, 200), (-1e6, -1e5, 0.5, 200), (5.0, 6.0, 10.0, 3), (-10, 10, 1e-7, 200)]
+        for lo_, hi_, tol_, mi_ in cands:
+            if lo_ < hi_ and tol_ > 0 and mi_ >= 1:
+                try:
+                    Inv(lower=lo_, upper=hi_, tol=tol_, max_iter=mi_)
+                except Exception as ex:  # noqa: BLE001
+                    return True, f"AutoregressiveBisectionInverter(lower={lo_}, upper={hi_}, tol={tol_}, max_iter={mi_}) is a usable configuration but was rejected: {type(ex).__name__}: {ex}"
+        return False, "model point and a grid of usable configurations were accepted by the real constructor"
     if rp["fn"] in ("_autoregressive_bisection_search", "AutoregressiveBisectionInverter"):
         import grids
 
